@@ -85,6 +85,14 @@ struct Rend<'a> {
     ctes: Vec<(String, DataFrame)>,
     /// DataFrame methods called, in order
     ops: Vec<String>,
+    /// diagnosis only: write the SQL default frame (RANGE UNBOUNDED PRECEDING .. CURRENT ROW) explicitly
+    /// for window functions with ORDER BY and no frame
+    explicit_default_frame: bool,
+}
+
+/// Detection demo switch (never set in a real run): `VERIF_C48_PLANT=1` renders LEFT JOIN as an inner join.
+fn planted() -> bool {
+    std::env::var("VERIF_C48_PLANT").map(|v| v == "1").unwrap_or(false)
 }
 
 fn column(rel: &Option<String>, name: &str) -> DExpr {
@@ -327,7 +335,9 @@ impl Rend<'_> {
                 A::FrameUnits::Range => WindowFrameUnits::Range,
                 A::FrameUnits::Groups => WindowFrameUnits::Groups,
             };
-            let offset = |n: i64| if units == WindowFrameUnits::Range { ScalarValue::Int64(Some(n)) } else { ScalarValue::UInt64(Some(n as u64)) };
+            // RANGE offsets: the type depends on the ORDER BY key; like the SQL planner, hand them over as text
+            // (the analyzer coerces Utf8 offsets to the key's type; an offset of another numeric type is taken as is)
+            let offset = |n: i64| if units == WindowFrameUnits::Range { ScalarValue::Utf8(Some(n.to_string())) } else { ScalarValue::UInt64(Some(n as u64)) };
             let bound = |b: &A::Bound| match b {
                 A::Bound::UnboundedPreceding => WindowFrameBound::Preceding(ScalarValue::Null),
                 A::Bound::Preceding(n) => WindowFrameBound::Preceding(offset(*n)),
@@ -336,6 +346,9 @@ impl Rend<'_> {
                 A::Bound::UnboundedFollowing => WindowFrameBound::Following(ScalarValue::Null),
             };
             b = b.window_frame(WindowFrame::new_bounds(units, bound(&fr.start), bound(&fr.end)));
+        }
+        if frame.is_none() && !order_by.is_empty() && self.explicit_default_frame {
+            b = b.window_frame(WindowFrame::new(Some(false)));
         }
         b.build().map_err(|e| Stop::Build(format!("ExprFunctionExt::build: {e}")))
     }
@@ -368,7 +381,8 @@ impl Rend<'_> {
                 let r = self.from_clause(right)?;
                 let jt = match kind {
                     A::JoinKind::Inner | A::JoinKind::Cross => JoinType::Inner,
-                    A::JoinKind::Left => JoinType::Left,
+                    // detection demo only: VERIF_C48_PLANT=1 builds a deliberately different frame for LEFT JOIN
+                    A::JoinKind::Left => if planted() { JoinType::Inner } else { JoinType::Left },
                     A::JoinKind::Right => JoinType::Right,
                     A::JoinKind::Full => JoinType::Full,
                     A::JoinKind::LeftSemi => JoinType::LeftSemi,
@@ -479,7 +493,7 @@ impl Rend<'_> {
         let grouped = !matches!(sel.group_by, A::GroupBy::None) || !agg_nodes.is_empty() || sel.having.is_some();
         if grouped {
             let mut group_exprs: Vec<DExpr> = vec![];
-            let mut keyed = |this: &mut Self, es: &[A::Expr], map: &mut Map| -> R<Vec<DExpr>> {
+            let keyed = |this: &mut Self, es: &[A::Expr], map: &mut Map| -> R<Vec<DExpr>> {
                 let mut out = vec![];
                 for e in es {
                     let d = this.ex(e, &none)?;
@@ -769,7 +783,11 @@ impl Rend<'_> {
 
 /// Render `q` in `style`: the frame (or why not) and the operations used.
 fn render(sctx: &SessionContext, q: &A::Query, style: Style) -> (R<DataFrame>, Vec<String>) {
-    let mut r = Rend { sctx, style, ctes: vec![], ops: vec![] };
+    render_with(sctx, q, style, false)
+}
+
+fn render_with(sctx: &SessionContext, q: &A::Query, style: Style, explicit_default_frame: bool) -> (R<DataFrame>, Vec<String>) {
+    let mut r = Rend { sctx, style, ctes: vec![], ops: vec![], explicit_default_frame };
     let out = mc_core::catch(|| r.query(q)).unwrap_or_else(|p| Err(Stop::Build(format!("panic in a builder method: {p}"))));
     (out, r.ops)
 }
@@ -964,7 +982,7 @@ fn run_case(c: &Case) -> Result<(), String> {
 }
 
 /// Root-cause key of a violation.
-fn cause_of(q: Option<&GenQuery>, style: Style, kind: &str, ops: &[String], id: &str) -> String {
+fn cause_of(q: Option<&GenQuery>, style: Style, kind: &str, ops: &[String], id: &str, explained_by_explicit_frame: bool) -> String {
     let Some(q) = q else { return format!("supplement:{id}:{kind}") };
     // the operations that distinguish the styles, else the family
     let special: Vec<&str> = ops
@@ -974,18 +992,8 @@ fn cause_of(q: Option<&GenQuery>, style: Style, kind: &str, ops: &[String], id: 
         .collect::<BTreeSet<_>>()
         .into_iter()
         .collect();
-    let has_default_frame_window = q.tags.iter().any(|t| t.starts_with("win:")) && {
-        let mut found = false;
-        A::visit_query(&q.ast, &mut |_| {}, &mut |e| {
-            if let A::Expr::Window { order_by, frame: None, .. } = e {
-                if !order_by.is_empty() {
-                    found = true;
-                }
-            }
-        }, &mut |_| {});
-        found
-    };
-    if has_default_frame_window && kind == "rows_differ" {
+    // exact attribution: the same chain with the SQL default frame written out agrees with SQL
+    if explained_by_explicit_frame {
         return "window_with_order_by_and_no_frame".into();
     }
     format!("{}:{kind}:F{}:{}", style.tag(), q.family, special.join("+"))
@@ -1096,8 +1104,8 @@ fn explore(ctx: &Ctx) {
                     return;
                 }
             };
-            let mut record = |kind: &'static str, what: String, ops: &[String]| {
-                let cause = cause_of(gq, style, kind, ops, &id);
+            let record = |kind: &'static str, what: String, ops: &[String], explained: bool| {
+                let cause = cause_of(gq, style, kind, ops, &id, explained);
                 let rank: Rank = (qi, style as usize, di);
                 let mut c2 = case.clone();
                 c2.cause = Some(cause.clone());
@@ -1119,7 +1127,7 @@ fn explore(ctx: &Ctx) {
                 Verdict::BuildRefused(w) => {
                     if gq.is_none() {
                         ctx.eval();
-                        record("supplement_chain_refused", format!("builder refused the hand-written chain: {w}"), &[]);
+                        record("supplement_chain_refused", format!("builder refused the hand-written chain: {w}"), &[], false);
                     } else {
                         ctx.count(&format!("builder_refused:{}", style.tag()), 1);
                         let mut r = refused.lock().unwrap();
@@ -1149,7 +1157,17 @@ fn explore(ctx: &Ctx) {
                 }
                 Verdict::Violation { kind, what, ops } => {
                     ctx.eval();
-                    record(kind, what, &ops);
+                    // is the difference explained exactly by the default frame of window functions with ORDER BY?
+                    let explained = kind == "rows_differ"
+                        && match (&ast, &sql_res) {
+                            (Some(q), Ok(s)) => match render_with(&sctx, q, style, true).0 {
+                                Ok(df) => engine::run_df(df).map(|r| compare_engine_results(&r.rows, s, &spec).is_ok()).unwrap_or(false),
+                                Err(_) => false,
+                            },
+                            _ => false,
+                        };
+                    let what = if explained { format!("{what}\n(the same chain with `.window_frame(RANGE UNBOUNDED PRECEDING .. CURRENT ROW)` written out agrees with SQL)") } else { what };
+                    record(kind, what, &ops, explained);
                 }
             }
         }
